@@ -21,6 +21,62 @@ GEN = K.Opt(K.Ref('SQLResult'))     # what the backend SQL generators return
 SQL = K.Atom('SQL')
 
 
+def add_run_mutation(w):
+    """AppMutator.run_mutation: consecutive model mutations on the same model go to ONE ModelMutator (whose operations
+    generate_table_ops_sql then merges into a single rebuild); a different model or a non-model mutation closes it."""
+    APPMUT = 'django_evolution/mutators/app_mutator.py'
+    MM = K.Ref('ModelMutatorObj')
+    w.exc('CannotSimulate')
+    w.cls('MutationObj', {})
+    w.cls('BaseModelMutation', {'model_name': K.Str}, bases=['MutationObj'])
+    w.cls('BaseUpgradeMethodMutation', {}, bases=['MutationObj'])
+    w.cls('ModelMutatorObj', {'model_name': K.Str, 'can_simulate': K.Bool})
+    w.cls('UpgradeMethodMutatorObj', {}, bases=['ModelMutatorObj'])
+    w.cls('AppMutator', {'_last_model_mutator': K.Opt(MM), '_mutators': K.Seq(MM), 'can_simulate': K.Bool,
+                         'app_label': K.Str, 'legacy_app_label': K.Opt(K.Str), 'project_sig': K.Atom('PSig'),
+                         'database_state': K.Atom('DbState'), 'database': K.Opt(K.Str)}, module=APPMUT)
+    w.ghost_var('ran_on', K.Seq(K.Tuple(MM, K.Ref('MutationObj'))))       # (model mutator, mutation) per run_mutation
+    w.stub('ModelMutator', params={'app_mutator': K.Ref('AppMutator'), 'model_name': K.Str}, returns=MM,
+           modifies=['ModelMutatorObj.model_name', 'ModelMutatorObj.can_simulate'],
+           ensures=['fresh_ref(result)', 'result.model_name == model_name',
+                    'forall(Ref_MM, lambda m: implies(not fresh_ref(m), m.model_name == old(m.model_name) and '
+                    '       m.can_simulate == old(m.can_simulate)))'],
+           note='ModelMutator(app_mutator, model_name): a new per-model mutator')
+    w.kinds['Ref_MM'] = MM
+    w.stub('UpgradeMethodMutator', params={'app_mutator': K.Ref('AppMutator'), 'mutation': K.Ref('MutationObj')},
+           returns=K.Ref('UpgradeMethodMutatorObj'), ensures=['fresh_ref(result)'])
+    w.stub('ModelMutatorObj.run_mutation', params={'self': MM, 'mutation': K.Ref('MutationObj')},
+           may_raise=['Exception'], effects=['ran_on = ran_on + [(self, mutation)]'],
+           note='queues the operation on the model mutator')
+    w.stub('MutationObj.mutate', params={'self': K.Ref('MutationObj'), 'mutator': K.Ref('AppMutator')}, may_raise=['Exception'])
+    w.stub('MutationObj.run_simulation', params={'self': K.Ref('MutationObj')}, kwarg='kwargs',
+           may_raise=['CannotSimulate', 'Exception'])
+    w.contracts['MutationObj.run_simulation'].params['kwargs'] = None
+    w.contract('AppMutator._finalize_model_mutator', module=APPMUT, inline=True, params={'self': K.Ref('AppMutator')})
+    w.contract(
+        'AppMutator.run_mutation', module=APPMUT, serves=['C18', 'C03'],
+        params={'self': K.Ref('AppMutator'), 'mutation': K.Ref('MutationObj')},
+        requires=['len(ran_on) == 0'],
+        raises={'Exception': True},
+        modifies=['ran_on', 'AppMutator._last_model_mutator[self]', 'AppMutator._mutators[self]',
+                  'AppMutator.can_simulate[self]', 'ModelMutatorObj.model_name', 'ModelMutatorObj.can_simulate'],
+        ensures=[
+            # a model mutation on the model of the open model mutator is queued on that very mutator ...
+            "implies(dtype_is(mutation, 'BaseModelMutation') and old(self._last_model_mutator) is not None and "
+            "        old(some(self._last_model_mutator).model_name) == old(mutation.model_name), "
+            "        len(ran_on) == 1 and sel(ran_on, 0)[0] is old(some(self._last_model_mutator)) and "
+            "        self._last_model_mutator is old(self._last_model_mutator) and "
+            "        len(self._mutators) == len(old(self._mutators)))",
+            # ... any other model mutation closes it and opens a new one for its own model
+            "implies(dtype_is(mutation, 'BaseModelMutation') and not (old(self._last_model_mutator) is not None and "
+            "        old(some(self._last_model_mutator).model_name) == old(mutation.model_name)), "
+            "        len(ran_on) == 1 and fresh_ref(sel(ran_on, 0)[0]) and self._last_model_mutator is sel(ran_on, 0)[0] and "
+            "        sel(ran_on, 0)[0].model_name == old(mutation.model_name))",
+        ],
+        ensures_exc=[],
+        note='ModelMutator / UpgradeMethodMutator construction and the mutation callbacks are stubs')
+
+
 def build():
     w = World('table_ops')
     w.consts['MERGEABLE'] = MERGEABLE
@@ -130,6 +186,7 @@ def build():
                 'new_unique': K.Bool},
         returns=K.Ref('SQLResult'), raises={'Exception': True}, modifies=['flattened'],
         ensures=['fresh_ref(result)', 'flattened == old(flattened)'], ensures_exc=['flattened == old(flattened)'])
+    add_run_mutation(w)
     w.contract(
         'BaseEvolutionOperations.generate_table_ops_sql', module=COMMON, serves=['C18'],
         params={'self': K.Ref('BaseEvolutionOperations'), 'mutator': K.Ref('ModelMutator'),
